@@ -19,8 +19,12 @@ type genProfile struct {
 	ThreshGaps int // percent of steps preceded by a threshold-neighbourhood gap
 	SmallGaps  int // percent preceded by a small gap
 	Redir      int // percent of login-type requests carrying a redir parameter
-	RedirGen   func(r *Rng) string
-	Thresholds func(c *Config) []time.Duration
+	// WrongJSONTypes: JSON clients sometimes send the remember flag as a
+	// boolean (the body then fails to parse: only for properties without a
+	// "must be accepted" clause)
+	WrongJSONTypes bool
+	RedirGen       func(r *Rng) string
+	Thresholds     func(c *Config) []time.Duration
 }
 
 type commonGen struct {
@@ -379,7 +383,7 @@ func (g *commonGen) fill(w *World, kind string, b int) Step {
 		st.Sec = g.secretFor(w, kind, st.A, b)
 		st.RM = c.hasModule("remember") && g.r.Chance(1, 3)
 		g.redir(&st)
-		if st.RM && c.JSON && g.r.Chance(1, 4) {
+		if st.RM && c.JSON && g.p.WrongJSONTypes && g.r.Chance(1, 4) {
 			if st.Str == nil {
 				st.Str = map[string]string{}
 			}
